@@ -1893,6 +1893,7 @@ func getIndexMap2(n *node) {
 	value0 := genValue(n.child[0])     // map
 	value2 := genValue(n.anc.child[1]) // status
 	next := getExec(n.tnext)
+	z := reflect.New(n.child[0].typ.frameType().Elem()).Elem() // zero value, for a missing entry
 	doValue := n.anc.child[0].ident != "_"
 	doStatus := n.anc.child[1].ident != "_"
 
@@ -1914,6 +1915,8 @@ func getIndexMap2(n *node) {
 				v := value0(f).MapIndex(mi)
 				if v.IsValid() {
 					dest(f).Set(v)
+				} else {
+					dest(f).Set(z)
 				}
 				if doStatus {
 					value2(f).SetBool(v.IsValid())
@@ -1935,6 +1938,8 @@ func getIndexMap2(n *node) {
 				v := value0(f).MapIndex(value1(f))
 				if v.IsValid() {
 					dest(f).Set(v)
+				} else {
+					dest(f).Set(z)
 				}
 				if doStatus {
 					value2(f).SetBool(v.IsValid())
